@@ -1,6 +1,6 @@
 SPECIFICATION MCSpec
 CONSTANTS
-  MaxRecs = 5
+  MaxRecs = 4
   MaxBatch = 2
   MaxOps = 6
   MaxEpoch = 2
